@@ -9,6 +9,13 @@
     status, the set of files, and the rows (projection: attribute values + geometry type and shape
     digest; extents / rtree / schema are C12's and are compared there).
 
+    [k_ids] is the -tilematrices list AS GIVEN: it may name an id more than once ("[6,5,6]"); the model
+    opens one target per distinct id ([distinct_ids], Cli/Model.v), the library's recorded results
+    ([rf_out]) are keyed by the distinct ids.  A date/time cell (column declared DATE / DATETIME /
+    TIMESTAMP) is [VTime ns], the instant in nanoseconds since the Unix epoch: the harness writes the
+    source value as ISO 8601 text, reads the target cell raw and parses it, so a change of the text
+    layout (the driver's) is no difference and a change of the instant is one.
+
     [PathCase]: injectSuffixIntoPath recomputed by the harness with Go's package path (Split, Ext,
     Join) + fmt.Sprintf on arbitrary paths over the safe alphabet (also unclean ones: "a//b/../x.y")
     against [inject]. *)
